@@ -194,8 +194,19 @@ fn account<P: Prop>(prop: &P, known: &Known, st: &mut ShardState, case: &P::Case
 /// Run one case; a panic that escapes the property code itself (as opposed to
 /// one trapped around a library call) is turned into a failure.
 fn safe_run<P: Prop>(prop: &P, case: &P::Case) -> CaseResult {
-    match crate::sut::trap(|| prop.run(case)) {
-        Ok(r) => r,
+    // one case in sixteen runs with traffic on a foreign context before every
+    // wrapped library call (sut::noise_tick); decided by the case's own hash
+    let h = hash_case(case);
+    crate::sut::set_noise(if h & 15 == 7 { Some(h) } else { None });
+    let out = crate::sut::trap(|| prop.run(case));
+    crate::sut::set_noise(None);
+    match out {
+        Ok(mut r) => {
+            if h & 15 == 7 {
+                r.labels.push("foreign_context_noise");
+            }
+            r
+        }
         Err(m) => {
             let mut r = CaseResult::default();
             r.fail(format!("{}:uncaught_panic:{}", prop.id(), crate::sut::panic_kind(&m)), format!("panic outside a trapped library call: {}", m));
